@@ -379,7 +379,10 @@ func (e *endpointManager) SelectAdapterProxy(msg *Message) (*AdapterProxy, bool)
 random:
 	if adp == nil && !e.directProxy {
 		// not any node is alive, just select a random one.
-		randomEpf := e.activeEpf[e.rand.Intn(len(e.activeEpf))]
+		e.epLock.Lock() // concurrent callers share the generator, which is not safe for concurrent use
+		randomIdx := e.rand.Intn(len(e.activeEpf))
+		e.epLock.Unlock()
+		randomEpf := e.activeEpf[randomIdx]
 		randomEp := endpoint.Tars2endpoint(randomEpf)
 		if v, ok := e.epList.Load(randomEp.Key); ok {
 			adp = v.(*AdapterProxy)
